@@ -236,10 +236,13 @@ impl Dh for Dh25519 {
 #[cfg(feature = "p256")]
 impl P256 {
     fn derive_pubkey(&mut self) {
-        let secret_key = p256::SecretKey::from_bytes(&self.privkey.into()).unwrap();
-        let public_key = secret_key.public_key();
-        let encoded_pub = public_key.to_encoded_point(false);
-        self.pubkey = encoded_pub;
+        // A scalar that is zero or not below the group order has no public key. Keep the
+        // (one byte long) identity encoding in that case, so that callers can notice the
+        // wrong `pubkey()` length instead of this function panicking.
+        self.pubkey = match p256::SecretKey::from_bytes(&self.privkey.into()) {
+            Ok(secret_key) => secret_key.public_key().to_encoded_point(false),
+            Err(_) => EncodedPoint::identity(),
+        };
     }
 }
 
@@ -269,10 +272,16 @@ impl Dh for P256 {
     }
 
     fn generate(&mut self, rng: &mut dyn Random) {
-        let mut bytes = [0_u8; 32];
-        rng.fill_bytes(&mut bytes);
-        self.privkey = bytes;
-        self.derive_pubkey();
+        // Draw again in the (2^-32) case that the bytes are not a valid scalar.
+        loop {
+            let mut bytes = [0_u8; 32];
+            rng.fill_bytes(&mut bytes);
+            self.privkey = bytes;
+            self.derive_pubkey();
+            if self.pubkey.len() == self.pub_len() {
+                break;
+            }
+        }
     }
 
     fn pubkey(&self) -> &[u8] {
